@@ -34,7 +34,10 @@ RULE = ("E2: random workflows grown through the real Workflow API (steps with ou
         "producers consumed only further down, whole sub-plans dropped and re-added at any level, steps dropped / "
         "moved / renamed / re-roled, static() lines dropped while the file is still an input) and harness/e3_gen.py "
         "histories with user tampering, --no-clean and targets; after every successful unrestricted build the "
-        "property itself is evaluated on disk and graph text.")
+        "property itself is evaluated on disk and graph text.  Symbolic links (harness/clean_own.py): queued / orphaned "
+        "outputs that still are exactly what the step left there -- including outputs that a step made as a symbolic link "
+        "to another of its outputs (directed family link-pair: target sorting before / after the link) -- must be gone "
+        "after remove_deletable_files, after Builder.finalize, and after a build through serve().")
 TRUSTED_BASE = [
     "Coq 8.16.1 kernel (vm_compute in Examples and in the correspondence evaluation; no native_compute)",
     "Print Assumptions: Closed under the global context for every C07 theorem",
@@ -48,7 +51,7 @@ ASSUMPTIONS = [
     "A-stat: equal (mtime, size, inode, mode) implies equal content (FileHash.refreshed fast path; C13)",
     "the order in which one sweep of the SQL cursor of Trellis.delete_detached meets eligible rows does not matter (proved: dd_survivors characterises the survivors independently of order)",
     "file rows in BUILT/OUTDATED carry a hash (CHECK constraint of the file table)",
-    "no symbolic links among outputs and their directories",
+    "A-links: only the last component of a path is ever a symbolic link; link targets stay inside the project",
 ]
 
 
